@@ -34,7 +34,8 @@ type lockUser struct {
 	bitStale map[string]bool
 }
 
-var lockPaths = []string{"a.dat", "b.dat", "dir/c.dat", "dir/we ird+&=name.dat"}
+// settings.cfg is lockable but not stored in LFS
+var lockPaths = []string{"a.dat", "b.dat", "dir/c.dat", "dir/we ird+&=name.dat", "settings.cfg"}
 
 func runC16(c *Ctx, faults bool) {
 	t := c.T
@@ -86,7 +87,7 @@ func runC16(c *Ctx, faults bool) {
 	a := users[0]
 	w.MustGit(w.Root, "init", "-q", a.dir)
 	w.MustGit(a.dir, "lfs", "install", "--local", "--force")
-	os.WriteFile(filepath.Join(a.dir, ".gitattributes"), []byte("*.dat filter=lfs diff=lfs merge=lfs -text lockable\n*.bin filter=lfs diff=lfs merge=lfs -text\n"), 0644)
+	os.WriteFile(filepath.Join(a.dir, ".gitattributes"), []byte("*.dat filter=lfs diff=lfs merge=lfs -text lockable\n*.bin filter=lfs diff=lfs merge=lfs -text\n*.cfg lockable\n"), 0644)
 	os.MkdirAll(filepath.Join(a.dir, "dir"), 0755)
 	for i, p := range append(append([]string{}, lockPaths...), "x.bin", "notes.txt") {
 		os.WriteFile(filepath.Join(a.dir, p), []byte(fmt.Sprintf("initial content %d of %s\n", i, p)), 0644)
@@ -314,11 +315,28 @@ func runC16(c *Ctx, faults bool) {
 			if l, ok := locks.Table[p]; ok && l.Owner.Name == other.name && !isAnyDirty(w, u.dir) {
 				full := filepath.Join(u.dir, p)
 				os.Chmod(full, 0644)
-				if f, err := os.OpenFile(full, os.O_APPEND|os.O_WRONLY, 0644); err == nil {
-					fmt.Fprintf(f, "unauthorised edit by %s at op %d\n", u.name, i)
-					f.Close()
+				switch t.Choose(4, "foreign-edit-kind") {
+				case 1:
+					// new content that the remote already has under another path
+					if b, err := os.ReadFile(filepath.Join(u.dir, "x.bin")); err == nil {
+						os.WriteFile(full, b, 0644)
+						c.Probe("foreign-locked-file-set-to-content-the-remote-has")
+					}
+					w.Git(u.dir, "commit", "-q", "-m", "touch locked file", "--", p)
+				case 2:
+					// the same new content in this file and in a file nobody has locked
+					fresh := []byte(fmt.Sprintf("shared new content by %s at op %d\n", u.name, i))
+					os.WriteFile(full, fresh, 0644)
+					os.WriteFile(filepath.Join(u.dir, "x.bin"), fresh, 0644)
+					w.Git(u.dir, "commit", "-q", "-m", "touch locked file and another", "--", p, "x.bin")
+					c.Probe("foreign-locked-file-shares-new-content")
+				default:
+					if f, err := os.OpenFile(full, os.O_APPEND|os.O_WRONLY, 0644); err == nil {
+						fmt.Fprintf(f, "unauthorised edit by %s at op %d\n", u.name, i)
+						f.Close()
+					}
+					w.Git(u.dir, "commit", "-q", "-m", "touch locked file", "--", p)
 				}
-				w.Git(u.dir, "commit", "-q", "-m", "touch locked file", "--", p)
 				c.Probe("committed-change-to-foreign-locked-file")
 			}
 		case 10: // merge: bring in the other side's pushed work
@@ -455,6 +473,28 @@ func (c *Ctx) pushWithLocks(w *World, locks *sim.Locks, u, other *lockUser, remo
 			touchesForeign = append(touchesForeign, p)
 		}
 	}
+	// does each foreign-locked path get a blob of its own that the remote does not have yet?
+	blobNew := map[string]bool{}
+	blobOf := map[string]string{}
+	for _, p := range changedPaths {
+		if b, code := w.GitQ(u.dir, "rev-parse", "-q", "--verify", "HEAD:"+p); code == 0 {
+			blobOf[p] = strings.TrimSpace(b)
+		}
+	}
+	for _, p := range touchesForeign {
+		b := blobOf[p]
+		if b == "" {
+			continue // deleted
+		}
+		_, code := w.GitQ(remote, "cat-file", "-e", b)
+		shared := false
+		for q, bq := range blobOf {
+			if q != p && bq == b {
+				shared = true
+			}
+		}
+		blobNew[p] = code != 0 && !shared
+	}
 	before := w.Refs(remote)
 	// sometimes the push creates a new branch on the remote instead of updating main
 	dst := "main"
@@ -494,6 +534,20 @@ func (c *Ctx) pushWithLocks(w *World, locks *sim.Locks, u, other *lockUser, remo
 		// fault; not asking the server at all is no excuse
 		verifyWorked := listed || !verifyFailed
 		if code == 0 && verifyWorked {
+			// the recorded shape: every foreign-locked path the push touches
+			// got a blob that is not new to the remote, or shares its new blob
+			// with another changed path (the verification looks at the names
+			// of new objects, not at the paths the commits change)
+			notNew := len(blobNew) > 0
+			for _, p := range touchesForeign {
+				if blobNew[p] {
+					notNew = false
+				}
+			}
+			if notNew {
+				c.Soft("push-accepted-foreign-lock-no-new-object", "%s: git push exited 0 although the pushed commits modify %v locked by %s and lock verification is enabled; none of these paths received an object of its own that is new to the remote; output: %s", u.name, touchesForeign, other.name, clipStr(out, 200))
+				return
+			}
 			c.Violation("push-accepted-despite-foreign-lock", "%s: git push exited 0 although the pushed commits modify %v locked by %s and lock verification is enabled; output: %s", u.name, touchesForeign, other.name, clipStr(out, 200))
 			return
 		}
